@@ -90,12 +90,19 @@ class IsoDepInitiator(object):
             pfb = pack('B', (0x02, 0x12)[more] | self.pni)
             data = pfb + command[offset:offset+self.miu]
 
+            n_retransmit = 0
             for i in itertools.count(start=1):  # pragma: no branch
                 try:
                     data = self.clf.exchange(data, timeout)
                     if len(data) == 0:
                         raise nfc.clf.TransmissionError
                     if data[0] == 0xA2 | (~self.pni & 1):
+                        # one such request may follow each recovery,
+                        # a card that keeps asking is not obeyed forever
+                        if n_retransmit > self.n_retry_nak:
+                            log.error("ISO-DEP protocol error: repeated ack")
+                            raise Type4TagCommandError(nfc.tag.PROTOCOL_ERROR)
+                        n_retransmit += 1
                         log.debug("ISO-DEP retransmit after ack")
                         data = pfb + command[offset:offset+self.miu]
                         continue
